@@ -209,6 +209,63 @@ def range_contains(ex, st, call):
     return ex.ret(st, call, Bool(z3.And(z3.fpLEQ(lo.e, x.e), z3.fpLT(x.e, hi.e))))
 
 
+JS_WS = [0x9, 0xA, 0xB, 0xC, 0xD, 0x20, 0xA0, 0x1680] + list(range(0x2000, 0x200B)) + [0x2028, 0x2029, 0x202F, 0x205F, 0x3000, 0xFEFF]
+NEAR_WS = [0x85, 0x180E, 0x200B, 0x200C, 0x2060, 0x1C, 0x1F, 0x8]
+
+
+def check_whitespace(rep, cross):
+    """(d) StringToNumber trims exactly the ECMAScript WhiteSpace and LineTerminator code points: the predicate trim_js_whitespace uses
+    is decided for EVERY char; the same set is confirmed through the real interpreter on the 25 members and 8 near misses."""
+    import json as _json
+    bad_c = []
+    srcs = []
+    for cp in JS_WS + NEAR_WS:
+        ch = '\\u%04X' % cp
+        srcs.append('[String(Number("%s7%s")), String("%s8" == 8)].join(",")' % (ch, ch, ch))
+    outs = driver.replay([{'cmd': 'eval', 'src': x} for x in srcs])
+    for cp, o in zip(JS_WS + NEAR_WS, outs):
+        rep.validated += 1
+        want = '7,true' if cp in JS_WS else 'NaN,false'
+        got = (o.get('value') or {}).get('v')
+        if got != want:
+            bad_c.append((cp, got, want))
+    if bad_c and not rep.seen('C15/string_to_number/whitespace-set'):
+        cp, got, want = bad_c[0]
+        p = rep.write_replay('whitespace', {'cmd': 'eval', 'src': srcs[(JS_WS + NEAR_WS).index(cp)], 'expected': want, 'observed': got, 'all': [(hex(c), g, w) for c, g, w in bad_c]})
+        rep.violation('C15/string_to_number/whitespace-set', 'Number("\\u%04X7\\u%04X") / "\\u%04X8" == 8 give %r, ECMAScript: %r (code points that differ: %s)' % (
+            cp, cp, cp, got, want, [hex(c) for c, _, _ in bad_c]), p)
+    ex = common.executor(unwind=3)
+    cands = [n for n in ex.mir.fn_index if n == 'is_js_whitespace' or n.endswith('::is_js_whitespace')]
+    if len(cands) != 1:
+        rep.inconc('trim_js_whitespace::is_js_whitespace not found in the MIR dump (%d candidates): the whitespace predicate moved' % len(cands))
+        return
+    st = State()
+    c = z3.BitVec('ch', 32)
+    st.assume(z3.Or(z3.ULT(c, 0xD800), z3.And(z3.UGT(c, 0xDFFF), z3.ULE(c, 0x10FFFF))))
+    ex.call_function(st, cands[0], [Char(c)])
+    ends = ex.run(st)
+    if not common.require_clean(rep, ends, 'is_js_whitespace'):
+        return
+    want = z3.Or([c == v for v in JS_WS])
+    for k, e in enumerate(ends):
+        g = e.value.e == want
+        r, m = ex.check_sat_pc(e.st.pc, [z3.Not(g)])
+        what = 'is_js_whitespace path %d: true exactly for the ECMAScript WhiteSpace / LineTerminator code points' % k
+        rep.obligation(what, r, 'every Unicode scalar value', 0.0)
+        if r == 'unsat':
+            cross.append((what, list(e.st.pc) + [z3.Not(g)], 'unsat'))
+        elif not rep.seen('C15/string_to_number/whitespace-set'):
+            cp = m.eval(c, model_completion=True).as_long()
+            src = '[String(Number("\\u%04X7")), String("\\u%04X8" == 8)].join(",")' % (cp, cp) if cp <= 0xFFFF else 'String(Number(String.fromCodePoint(%d) + "7"))' % cp
+            o = driver.replay([{'cmd': 'eval', 'src': src}])[0]
+            rep.validated += 1
+            p = rep.write_replay('whitespace', {'cmd': 'eval', 'src': src, 'code_point': hex(cp), 'observed': o})
+            rep.violation('C15/string_to_number/whitespace-set', 'U+%04X is %streated as whitespace by StringToNumber: %s gives %r' % (
+                cp, '' if cp not in JS_WS else 'not ', src, (o.get('value') or {}).get('v')), p)
+    rep.sample({'kernel': 'trim_js_whitespace::is_js_whitespace', 'paths': len(ends)})
+    rep.absorb(ex)
+
+
 def run(rep):
     rep.bounds = dict(operands='every f64 bit pattern; kinds undefined/null/boolean/number', loops='none in these kernels')
     rep.assumptions = [
@@ -229,6 +286,7 @@ def run(rep):
     ex3 = common.executor(unwind=4)
     check_notation(rep, ex3, cross)
     rep.absorb(ex3)
+    check_whitespace(rep, cross)
     rep.cross = driver.cross_check(cross, 300, 'ALL', rep.tier, rep.seed)
     rep.extra['cross_checked_obligations'] = len(cross)
 
